@@ -256,9 +256,12 @@ def search(ctx, focus=None):
     try:
         for _ in range(ctx.n(22, 400)):
             case = gen_case(rng)
-            nforms = len(BYTE_FORMS) * 2 if case["kind"] == "bytes" else len(TEXT_FORMS)
+            nforms = len(BYTE_FORMS) * 2 if case["kind"] == "bytes" else len(TEXT_FORMS) + 1
             n += nforms
-            distinct.add((case["data"] if isinstance(case["data"], bytes) else case["data"].encode("utf-8"), str(case["headers"])))
+            key_doc = (case["data"] if isinstance(case["data"], bytes) else case["data"].encode("utf-8"), str(case["headers"]))
+            for form in (BYTE_FORMS if case["kind"] == "bytes" else ["bytes"] + TEXT_FORMS):
+                for opt in ((True, False) if case["kind"] == "bytes" else (True,)):
+                    distinct.add(key_doc + (form, opt))
             dist[case["label"].split("/")[0]] = dist.get(case["label"].split("/")[0], 0) + nforms
             failures += judge(case, rng, tmpdir)
             for f in os.listdir(tmpdir):
@@ -267,12 +270,12 @@ def search(ctx, focus=None):
         for f in os.listdir(tmpdir):
             os.unlink(os.path.join(tmpdir, f))
         os.rmdir(tmpdir)
-    return {"evaluations": n, "distinct_nontrivial": len(distinct) * 7, "failures": failures, "distribution": dist,
+    return {"evaluations": n, "distinct_nontrivial": len(distinct), "failures": failures, "distribution": dist,
             "rule": "documents {small vocabulary-wide feeds; ~64 KiB + feeds with a run of 2/3/4-byte characters placed at every alignment (-6..+6) around byte 65536, declared utf-8 / us-ascii / "
                     "undeclared, XML media types with and without charset; UTF-16/32, latin-1, windows-1252, koi8-r at sizes straddling 2**13 and 2**16 +/- 4; an undecodable byte before / "
                     "after the prefix boundary; text documents around the 8192-character text prefix, well-formed and damaged} x delivery {bytes, BytesIO, BytesIO at an offset, non-seekable "
                     "stream, short-read stream, open file, path | str, StringIO, StringIO at an offset, non-seekable text stream} x optimistic on/off; oracle: pairwise equality of feed, "
-                    "entries, encoding, version, namespaces, bozo class; caller streams not closed; no fd left open after parse(path); distinct = distinct (document, headers) x forms",
+                    "entries, encoding, version, namespaces, bozo class; caller streams not closed; no fd left open after parse(path); distinct = distinct (document, headers, delivery form, optimistic flag)",
             "samples": [{"label": "boundary-64k/utf-8"}]}
 
 
